@@ -1,7 +1,7 @@
 (* C15 -- No xorb or chunk exceeds the configured and wire-format limits.  Statements only. *)
 From Coq Require Import NArith Bool List.
 Import ListNotations.
-From XetModel Require Import Base.Codec Gen.ShardLayout Gen.DedupFacts Model.Merkle Model.Shard Model.Dedup Proofs.PipelineProofs Proofs.ResolveProofs Proofs.NoSelfRefProofs.
+From XetModel Require Import Base.Codec Gen.ShardLayout Gen.DedupFacts Model.Merkle Model.Shard Model.Dedup Proofs.PipelineProofs Proofs.ResolveProofs Proofs.NoSelfRefProofs Proofs.LimitsProofs.
 Open Scope N_scope.
 
 (* for every oracle and every fragmentation decision: each xorb handed to register_new_xorb is non-empty, holds at most
@@ -26,6 +26,23 @@ Theorem C15_no_unresolved_reference : forall F U, StoreOk F U -> forall rc cf op
   forall fi s, In fi (s_shard_files (srun rc cf ops)) -> In s (fi_segs fi) -> sg_cas s <> zero_hash /\ sg_start s < sg_end s.
 Proof. exact session_no_unresolved_reference. Qed.
 
+
+(* composed over a whole session: every xorb handed to the store -- cut in mid-file, cut by the session when the aggregated
+   data would pass a limit (either branch of the swap), or cut at finalize -- is non-empty and within both limits, for every
+   sequence of completions and mid-file registrations whose parts are within the limits ... *)
+Theorem C15_session_uploads_within_limits : forall rc cf ops, Forall (op_lim cf) ops -> Forall (xorb_ok cf) (s_uploaded (srun rc cf ops)).
+Proof. exact session_uploads_within_limits. Qed.
+(* ... which is what files fed through the deduper hand over (any block split, any table, chunks of 1..MAX_XORB_BYTES bytes) *)
+Theorem C15_file_ops_within_limits : forall bbd cf ext blocks salt sha m g, cfg_ok cf -> (forall b c, In b blocks -> In c b -> chunk_fits cf c) ->
+  let f := feed_blocks bbd cf ext fd0 blocks in
+  op_lim cf (OpMid (rev (f_registered f))) /\ (Forall (fun c => 1 <= snd c) (f_new f) -> op_lim cf (OpFile (snd (fst (fst (fd_finalize f salt sha)))) m g)).
+Proof. exact file_ops_within_limits. Qed.
+Example C15_session_limits_example :
+  Forall (op_lim ex_cfg2) ex_ops /\ Forall (xorb_ok ex_cfg2) (s_uploaded (srun true ex_cfg2 ex_ops)) /\ length (s_uploaded (srun true ex_cfg2 ex_ops)) = 1%nat.
+Proof. exact limits_example. Qed.
+
 Print Assumptions C15_xorb_limits.
 Print Assumptions C15_aggregator_limits.
 Print Assumptions C15_no_unresolved_reference.
+Print Assumptions C15_session_uploads_within_limits.
+Print Assumptions C15_file_ops_within_limits.
